@@ -168,6 +168,51 @@ def text_rewrites(fx, serializer_re):
     return out
 
 
+def member_omission(fx, ck, name, scope):
+    """R4: in a loop that fills a JSON object (`Map::insert`), a member may be skipped only on the positive edge of `val is Undefined`.
+    A skip decided by the *converted* value (`json_val.is_null()`) also drops NaN / Infinity members, which JSON.stringify writes as null."""
+    import loops as L
+    n = 0
+    ck.rule(name, "every path on which the exporter leaves a member out of an object passes the positive edge of a test of the source value for `Undefined`")
+    for p, f in sorted(fx.fns.items()):
+        if f.closure or not scope(f):
+            continue
+        inserts = [bi for bi, t in f.calls() if re.search(r"serde_json::(map::)?Map::<.*>::insert$|c16omit::Map::insert$", t[1].get("d", ""))]
+        if not inserts:
+            continue
+        for hd, body in L.natural_loops(f):
+            ins = [b for b in inserts if b in body]
+            # member loops only: the inserted value is what the converter made of the loop's element
+            from c09 import ancestors
+            conv_blocks = {bi for bi, t in f.calls() if bi in body and t[1].get("local") and "Json" in fx.tys(f.locals[t[3][0]]) + "Json"
+                           and (t[1].get("d") == p or (t[1].get("d") or "").endswith("::convert"))}
+            conv_locals = {f.blocks[b]["t"][3][0] for b in conv_blocks}
+            ins = [b for b in ins if len(f.blocks[b]["t"][2]) >= 3 and f.blocks[b]["t"][2][2][0] in ("c", "m")
+                   and ancestors(f, f.blocks[b]["t"][2][2][1][0]) & conv_locals]
+            if not ins:
+                continue
+            # smallest loop around the insert only
+            if any(h2 != hd and set(ins) <= b2 and len(b2) < len(body) for h2, b2 in L.natural_loops(f)):
+                continue
+            n += 1
+            undef = set()
+            for sb, en, place, arms, other, rest in M.enum_switches(fx, f):
+                if en.endswith("JsValue") and "Undefined" in arms and sb in body:
+                    undef.add(arms["Undefined"])
+            # a cycle through the header that avoids the insert and every Undefined edge = a member skipped for another reason
+            stop = set(ins) | undef
+            reach = M.reach_bool_sensitive(fx, f, f.succ(hd), stop=stop, within=body)
+            skip = any(hd in f.succ(b) for b in reach if b not in stop)
+            # paths that leave through an error (`?`) are not omissions; only the back edge counts
+            ok = not skip
+            ck.instance(name, "%s: member loop" % p, F.short_span(f.blocks[ins[0]]["t"][6]), ok=ok)
+            if not ok:
+                ck.finding(name, "%s/%s" % (name, p), F.short_span(f.blocks[ins[0]]["t"][6]),
+                           "`%s` can leave a member out of the object on a path that does not test the source value for `Undefined`: a member whose "
+                           "value merely converts to null (NaN, Infinity) disappears instead of being written as null" % p)
+    return n
+
+
 def run(tier):
     ck = Check("C16", tier, "representation-invariant check at every construction site of PropertyKey::String (operand provenance, canonicaliser discovery, one level of caller provenance) + dominance of the JSON exporter's recursion by its visited-set test",
                ["fidelity of strings, numbers and key order through serde_json (values)", "depth of acyclic graphs (C06 R3)"])
@@ -264,7 +309,17 @@ def run(tier):
             ck.finding("R3.no-text-rewrite", "R3.no-text-rewrite/" + f.path, F.short_span(bad[0][2]),
                        "`%s` serializes JSON and then rewrites text with `%s(%r, ..)`: the substitution also hits string values and keys that contain the pattern, "
                        "so the text no longer reads back as the document (or is no longer JSON)" % (f.path, bad[0][0], bad[0][1]))
+    # ---------------- R4 a member is omitted because of what it IS (undefined), not because of what it converts to
+    ck.rule("R4.omission-by-source-kind", "every path on which the exporter leaves a member out of an object passes the positive edge of a test of the "
+                                          "source value for `Undefined`", floor=1)
+    n4 = member_omission(fx, ck, "R4.omission-by-source-kind", lambda g: g.path.startswith("interpreter::builtins::json::") or g.path.startswith("ffi::"))
+    ck.anchor(n4 >= 1, "member loop of the JSON exporter (serde_json::Map::insert)")
     ctl = F.load_fixture()
+    ck4 = Check("C16", tier, "", [])
+    member_omission(ctl, ck4, "R4.omission-by-source-kind", lambda g: g.path.startswith("c16omit::"))
+    bad4 = {fd[1].split("/")[-1] for fd in ck4.findings}
+    if "c16omit::bad_export" not in bad4 or "c16omit::good_export" in bad4:
+        ck.closed_fail.append("R4 positive control failed: fixture reports %s" % sorted(bad4))
     hits = {f.path: reps for f, ser, reps in text_rewrites(ctl, r"c16text::to_string_pretty$")}
     if not hits.get("c16text::bad_reindent") or hits.get("c16text::good_reindent"):
         ck.closed_fail.append("R3 positive control failed (%s)" % {k: len(v) for k, v in hits.items()})
